@@ -25,6 +25,7 @@ CONSTANTS
   MaxSteps = 8
   RationalOnly = FALSE
   Twins = FALSE
+  SetOnce = FALSE
   Chain = TRUE
   NeedDt = FALSE
   BindLeaves = FALSE
